@@ -10,18 +10,18 @@ import (
 
 	metav1 "k8s.io/apimachinery/pkg/apis/meta/v1"
 	"k8s.io/apimachinery/pkg/apis/meta/v1/unstructured"
-	"k8s.io/apimachinery/pkg/labels"
 	"k8s.io/apimachinery/pkg/runtime/schema"
 
 	"metacontroller/pkg/apis/metacontroller/v1alpha1"
 	"metacontroller/pkg/controller/common"
 	"metacontroller/pkg/controller/common/api"
-	"metacontroller/pkg/controller/common/customize"
-	"metacontroller/pkg/controller/common/finalizer"
 	v1 "metacontroller/pkg/controller/composite/api/v1"
 	dynamicdiscovery "metacontroller/pkg/dynamic/discovery"
 	dynamicinformer "metacontroller/pkg/dynamic/informer"
 	"metacontroller/pkg/zzverif/env"
+	stub "metacontroller/pkg/zzverif/informerstub"
+
+	"github.com/go-logr/logr"
 )
 
 // verifHook is a deterministic, side-effect-free hook: a function of the request.
@@ -87,8 +87,19 @@ type verifPC struct {
 
 const verifFinalizerName = "metacontroller.io/compositecontroller-cc"
 
+// verifNewPC builds the controller through the REAL constructor
+// (newParentController: strategy map, finalizer manager, customize manager,
+// selector, clients, whatever a later change adds) over a SharedInformerFactory
+// whose client-go informers are stubs, and then swaps in what a harness has to
+// control: the hooks, the work queue, the listers (Snapshot) and the revision
+// lister. Nothing else is filled in by hand, so a field added to
+// parentController and initialised by the constructor is initialised here too.
 func verifNewPC(w *env.World, cfg verifPCConfig) *verifPC {
+	dynamicinformer.VerifNewSharedIndexInformer = stub.NewSharedIndexInformer
+	dynamicinformer.VerifNewLister = stub.NewLister
 	tr := true
+	hookURL := "http://hook.ns/sync"
+	goodHook := func() *v1alpha1.Hook { return &v1alpha1.Hook{Webhook: &v1alpha1.Webhook{URL: &hookURL}} }
 	cc := &v1alpha1.CompositeController{}
 	cc.Name = "cc"
 	if cfg.GenerateSelector {
@@ -107,20 +118,9 @@ func verifNewPC(w *env.World, cfg verifPCConfig) *verifPC {
 			UpdateStrategy: c.Strategy,
 		})
 	}
-	strat, err := makeUpdateStrategyMap(w.RM, cc)
-	if err != nil {
-		panic(err)
-	}
-	parentClient, err := w.Dyn.Resource(cfg.ParentRes.APIVersion, cfg.ParentRes.Name)
-	if err != nil {
-		panic(err)
-	}
-	parentSelector := labels.Everything()
-	if cfg.ParentSelector != nil {
-		parentSelector, err = metav1.LabelSelectorAsSelector(cfg.ParentSelector)
-		if err != nil {
-			panic(err)
-		}
+	cc.Spec.Hooks = &v1alpha1.CompositeControllerHooks{Sync: goodHook()}
+	if cfg.FinalizeEnabled {
+		cc.Spec.Hooks.Finalize = goodHook()
 	}
 	if cfg.Sync == nil {
 		cfg.Sync = &verifHook{}
@@ -134,25 +134,16 @@ func verifNewPC(w *env.World, cfg verifPCConfig) *verifPC {
 	if cfg.SSA {
 		ssa = &common.ApplyOptions{Strategy: common.ApplyStrategyServerSideApply, FieldManager: "metacontroller"}
 	}
-	pc := &parentController{
-		cc:             cc,
-		parentResource: cfg.ParentRes,
-		mcClient:       &env.MCClient{S: w.Srv},
-		dynClient:      w.Dyn,
-		parentClient:   parentClient,
-		parentSelector: parentSelector,
-		revisionLister: &env.RevLister{},
-		queue:          q,
-		updateStrategy: strat,
-		childInformers: make(common.InformerMap),
-		ssaOptions:     ssa,
-		eventRecorder:  rec,
-		finalizer:      finalizer.NewManager(verifFinalizerName, cfg.FinalizeEnabled),
-		customize:      &customize.Manager{},
-		syncHook:       cfg.Sync,
-		finalizeHook:   cfg.Finalize,
+	factory := dynamicinformer.NewSharedInformerFactory(w.Dyn, 0)
+	pc, err := newParentController(w.RM, w.Dyn, factory, rec, &env.MCClient{S: w.Srv}, &env.RevLister{}, cc, 1, ssa, logr.Discard())
+	if err != nil {
+		panic(err)
 	}
-	return &verifPC{parentController: pc, W: w, Queue: q, Recorder: rec, Cfg: cfg}
+	pc.syncHook, pc.finalizeHook = cfg.Sync, cfg.Finalize
+	pc.queue = q
+	p := &verifPC{parentController: pc, W: w, Queue: q, Recorder: rec, Cfg: cfg}
+	p.Snapshot(nil, nil, nil)
+	return p
 }
 
 func verifGVR(r *dynamicdiscovery.APIResource) schema.GroupVersionResource {
